@@ -175,7 +175,7 @@ class IsoTpStateMachine:
                     frame_id = int(m.group(2), 16)
 
                     frame_data_formatted = m.group(3).strip()
-                    frame_data = bytearray([int(x, 16) for x in frame_data_formatted.split(" ")])
+                    frame_data = bytearray([int(x, 16) for x in frame_data_formatted.split()])
 
                     for tmp in self.decode_rx_frame(frame_id, frame_data):
                         yield tmp
